@@ -65,6 +65,7 @@ try:
 except Exception as e:
     meta = {"note": "agent meta.json unreadable: %r" % (e,)}
 meta["property"] = pid
+meta["repo_head"] = run("git -C /repo rev-parse --short HEAD", "/verif")[1].strip()
 meta["confirmed_by_me"] = confirm
 meta["what_i_ran"] = ["scratch worktree %s at /repo HEAD: cargo test -p pdf --test %s (without patch: pass=%s; with patch: fail=%s)" % (wt, test_name, rc0 == 0, rc1 != 0),
                       "cargo test --workspace --no-fail-fast --offline with the patch: %d passed, failed=%s" % (passed_total, failed),
